@@ -535,8 +535,8 @@ class IkeSa(object):
 
     def _generate_ike_sa_negotiation_request(self):
         # create the Payload SA
-        self.chosen_proposal = self.configuration.proposal
-        self.chosen_proposal.spi = self.my_spi
+        self.chosen_proposal = Proposal(self.configuration.proposal.num, self.configuration.proposal.protocol_id,
+                                        self.my_spi, list(self.configuration.proposal.transforms))
         payload_sa = PayloadSA([self.chosen_proposal])
 
         # generate payload NONCE
@@ -611,9 +611,10 @@ class IkeSa(object):
         result.append(PayloadTSi(child_sa.tsi))
         result.append(PayloadTSr(child_sa.tsr))
 
-        # generate Payload SA
-        child_sa.proposal.spi = child_sa.inbound_spi
-        result.append(PayloadSA([child_sa.proposal]))
+        # generate Payload SA (from a copy: the proposal object belongs to the configuration and is shared by every
+        # IKE_SA and CHILD_SA negotiated for this connection)
+        result.append(PayloadSA([Proposal(child_sa.proposal.num, child_sa.proposal.protocol_id, child_sa.inbound_spi,
+                                          list(child_sa.proposal.transforms))]))
 
         # generate Payload KE (if required)
         try:
